@@ -162,6 +162,12 @@ impl Check for Handshake {
     fn components(&self) -> serde_json::Value {
         serde_json::json!({"real": ["stellar_access::ownable::* (trait defaults, #[only_owner])", "stellar_access::access_control::{transfer_admin_role, accept_admin_transfer, renounce_admin, #[only_admin]}", "stellar_access::role_transfer::*", "soroban host: temporary storage TTL with min_temp_entry_ttl = 1, auth-tree matching"], "stub": ["Wallet (accept-all signature check)"]})
     }
+    fn dup_ok(&self, _s: &Step) -> bool {
+        true
+    }
+    fn reorder_ok(&self) -> bool {
+        true
+    }
     fn probes(&self, _prop: &str) -> std::vec::Vec<&'static str> {
         vec!["probe.offer_replaced_by_shorter", "probe.accept_at_deadline", "probe.accept_one_past_deadline", "probe.accept_after_cancel", "probe.accept_replaced_pending", "probe.renounce_while_pending", "probe.accept_in_window_of_longer_earlier_offer"]
     }
